@@ -167,7 +167,7 @@ def getitem_int_spec(sx, self, i):
 
 
 SLICE_ARG = Built(["hi", "lo"], lambda env: slice(env["hi"], env["lo"], None), lambda asg: "None", lambda asg: None)
-con = contract("cohdl._core._type_qualifier:TypeQualifier.__getitem__", PROPS)
+con = contract("cohdl._core._type_qualifier:TypeQualifier.__getitem__", PROPS + ("C17",))  # C17: from_bits slices nested records
 for K in (BitVector, Unsigned, Signed):
     for path in ("root", "slice0", "slice1", "slice2"):
         c = Case(f"{K.__name__}.{path}[hi:lo]", [view_shape(K, path), SLICE_ARG], getitem_slice_spec)
